@@ -1,2 +1,168 @@
-(* Properties/C02.v -- placeholder while the proofs are being written *)
-From Verif Require Import Css.Whitespace.
+(* Properties/C02.v -- Pagination and line breaking conserve content.
+
+   Theorem statements only.  Models: Layout/Fragment.v (fragmentation steps and
+   resume stacks), Layout/Paginate.v (the pagination model), Css/Whitespace.v
+   (port of ProcessWhitespace), Layout/TextDraw.v (text drawing).
+   Specifications: Css/WhitespaceSpec.v.  Proofs: Layout/FragmentProofs.v,
+   Layout/PaginateProofs.v, Css/WhitespaceProofs.v, Layout/TextDrawProofs.v. *)
+From Verif Require Import Layout.Paginate Layout.PaginateSpec Layout.PaginateProofs.
+From Verif Require Import Layout.Fragment Layout.FragmentProofs.
+From Verif Require Import Css.Whitespace Css.WhitespaceSpec Css.WhitespaceProofs.
+From Verif Require Import Layout.TextDraw Layout.TextDrawProofs.
+From Coq Require Import List ZArith NArith Arith.
+Import ListNotations.
+Local Open Scope nat_scope.
+
+(* --- the refinement form, independent of any particular pagination algorithm:
+   for ANY sequence of fragmentation steps (skip, placed, resume) in which every
+   step is locally consistent -- what `skip` designates is what was placed followed
+   by what `resume` designates -- and each step starts where the previous one said
+   to resume, the concatenation of everything placed, followed by what the final
+   resume point still designates, is the content from the start: nothing lost,
+   duplicated or reordered. *)
+Theorem C02_fragment_steps_conserve :
+  forall (Pos U : Type) (content_from : Pos -> list U) steps start final,
+    linked Pos U start steps final ->
+    Forall (step_ok Pos U content_from) steps ->
+    content_from start = flat_map (@placed Pos U) steps ++ content_opt Pos U content_from final.
+Proof. exact fragment_steps_conserve. Qed.
+Print Assumptions C02_fragment_steps_conserve.
+
+Theorem C02_fragment_step_conserves :
+  forall (Pos U : Type) (content_from : Pos -> list U) steps start,
+    steps <> [] ->
+    linked Pos U start steps None ->
+    Forall (step_ok Pos U content_from) steps ->
+    flat_map (@placed Pos U) steps = content_from start.
+Proof. exact fragment_step_conserves. Qed.
+Print Assumptions C02_fragment_step_conserves.
+
+(* --- the two rewind operations are steps: dropping the last k placed units
+   (breakLine, for widows) or cutting back to an earlier break
+   (findEarlierPageBreak) keeps a step consistent if and only if the resume point
+   they return designates exactly what they removed, then what the old one did *)
+Theorem C02_rewind_to_earlier_break_ok :
+  forall (Pos U : Type) (content_from : Pos -> list U) j new_resume (s : step Pos U),
+    step_ok Pos U content_from s ->
+    (step_ok Pos U content_from (rewind_to Pos U j new_resume s) <->
+     rewind_matches Pos U content_from (skipn j (placed s)) new_resume (resume s)).
+Proof. exact rewind_to_ok_iff. Qed.
+Print Assumptions C02_rewind_to_earlier_break_ok.
+
+Theorem C02_drop_last_lines_ok :
+  forall (Pos U : Type) (content_from : Pos -> list U) k new_resume (s : step Pos U),
+    step_ok Pos U content_from s ->
+    rewind_matches Pos U content_from (skipn (length (placed s) - k) (placed s)) new_resume (resume s) ->
+    step_ok Pos U content_from (drop_last Pos U k new_resume s).
+Proof. exact drop_last_ok. Qed.
+Print Assumptions C02_drop_last_lines_ok.
+
+(* resume stacks {index: sub}: the units designated are those after all children
+   before `index` and after what `sub` skips inside child `index`; a container whose
+   children before `index` were placed entirely is a consistent step *)
+Theorem C02_resume_stack_container_step :
+  forall ks i sub,
+    i < length ks ->
+    offset_in (nth i ks (Mono 0)) sub <= flow_size (nth i ks (Mono 0)) ->
+    units_from ks None = seq 0 (offset_list ks (Some (RS i sub))) ++ units_from ks (Some (RS i sub)).
+Proof. exact container_step_ok. Qed.
+Print Assumptions C02_resume_stack_container_step.
+
+(* ResumeStack.Unpack is only reached with a non-empty stack (blocks.go:373) *)
+Theorem C02_unpack_never_panics : forall r, exists i sub, block_skip r = GoSem.Ok (i, sub).
+Proof. exact block_skip_ok. Qed.
+Print Assumptions C02_unpack_never_panics.
+
+(* --- the pagination model conserves: concatenating the pages' unit lists gives
+   every in-flow unit exactly once, in flow order, for every document *)
+Theorem C02_paginate_conserves : forall (css : bool) (d : doc),
+  flat_map (fun p : pstate * nat * nat => let '(_, a, e) := p in seq a (e - a)) (paginate_ranges css d)
+  = seq 0 (length (lin_flows (d_flow d))).
+Proof. exact paginate_conserves. Qed.
+Print Assumptions C02_paginate_conserves.
+
+(* ... and so does every list of pages that forms a chain (this is what Check/C12.v
+   and Check/C02.v test on the implementation's pages) *)
+Theorem C02_chain_conserves :
+  forall (St : Type) n (next_st : St -> nat -> St) st s ps,
+    chain St n next_st st s ps ->
+    flat_map (fun p : St * nat * nat => let '(_, a, e) := p in seq a (e - a)) ps = seq s (n - s).
+Proof. exact chain_conserves. Qed.
+Print Assumptions C02_chain_conserves.
+
+(* --- white space: the only transformation of text before layout *)
+
+(* never drops, adds or reorders a non-space character (one text, a tree of inline
+   boxes, and the once-per-ancestor processing of elementToBox) *)
+Theorem C02_whitespace_preserves_non_space_text : forall m f t,
+  non_ws (fst (process_text m f t)) = non_ws t.
+Proof. exact process_text_non_ws. Qed.
+Print Assumptions C02_whitespace_preserves_non_space_text.
+
+Theorem C02_whitespace_preserves_non_space : forall b,
+  flat_map (fun mt => non_ws (snd mt)) (texts (build b)) =
+  flat_map (fun mt => non_ws (snd mt)) (texts b).
+Proof. exact build_non_ws. Qed.
+Print Assumptions C02_whitespace_preserves_non_space.
+
+(* idempotent: full statement, and the part proved (no pre-line text in the tree) *)
+Definition C02_whitespace_idempotent_statement : Prop := pw_idempotent_statement.
+
+Theorem C02_whitespace_idempotent_partial : forall b f,
+  preline_free b -> pw f (fst (pw f b)) = pw f b.
+Proof. exact pw_idempotent. Qed.
+Print Assumptions C02_whitespace_idempotent_partial.
+
+(* CSS Text 3, 4.1.1 for the five modes.
+   normal / nowrap: the result is THE text obtained by replacing every maximal run
+   of spaces, tabs and line feeds by one space, minus one leading space when the
+   previous text ended with a collapsible space; the returned flag says whether it
+   ends with a space *)
+Theorem C02_whitespace_spec_normal_nowrap : forall m f t,
+  new_line_collapse m = true -> t <> [] ->
+  exists out, collapses (norm_lf t) out /\
+    (forall out', collapses (norm_lf t) out' -> out' = out) /\
+    process_text m f t = (if f && has_prefix_sp out then tl out else out, has_suffix_sp out).
+Proof.
+  intros m f t H Hne. destruct (whitespace_spec_normal m f t H Hne) as (out & H1 & H2).
+  exists out. split; auto. split; auto. intros out' H'. eapply collapses_functional; eauto.
+Qed.
+Print Assumptions C02_whitespace_spec_normal_nowrap.
+
+(* pre / pre-wrap: preserved (only CR LF / CR become LF) *)
+Theorem C02_whitespace_spec_pre_prewrap : forall m f t,
+  space_collapse m = false -> t <> [] -> process_text m f t = (norm_lf t, false).
+Proof. exact whitespace_spec_pre. Qed.
+Print Assumptions C02_whitespace_spec_pre_prewrap.
+
+(* pre-line: full statement (evaluated on every generated pre-line text by
+   Check/C02.v, code 7), not proved *)
+Definition C02_whitespace_spec_preline_statement : Prop := whitespace_spec_preline_statement.
+
+(* in the collapsing modes (normal, nowrap, pre-line) no tab and no two adjacent
+   spaces survive: a collapsible run yields at most one space *)
+Theorem C02_whitespace_never_two_spaces : forall m f t,
+  space_collapse m = true -> snf false (fst (process_text m f t)).
+Proof. exact whitespace_no_double_space. Qed.
+Print Assumptions C02_whitespace_never_two_spaces.
+
+(* --- every text box of a page yields exactly one DrawText call, with its text, in
+   document order, when it is visible, not blank and has a font size; none otherwise *)
+Theorem C02_drawn_once : forall b,
+  draw_events b =
+  map (fun x => snd x) (filter (fun x => drawable (fst (fst x)) (snd (fst x)) (snd x)) (text_boxes b)).
+Proof. exact drawn_once. Qed.
+Print Assumptions C02_drawn_once.
+
+(* --- the hypotheses are inhabited *)
+Example C02_example_steps :
+  let content_from := idx_content 5 in
+  let steps := [mkStep 0 [0; 1] (Some 2); mkStep 2 [2; 3; 4] None] in
+  linked nat nat 0 steps None /\ Forall (step_ok nat nat content_from) steps /\
+  flat_map (@placed nat nat) steps = [0; 1; 2; 3; 4].
+Proof. cbn. repeat split; auto; repeat constructor. Qed.
+
+Example C02_example_whitespace :
+  texts (build (IBox [IText WNormal [32; 97; 32; 10]%N; IBox [IText WNormal [32; 98]%N]]))
+  = [(WNormal, [32; 97; 32]%N); (WNormal, [98]%N)].
+Proof. vm_compute. reflexivity. Qed.
